@@ -184,6 +184,9 @@ pub struct CountedServer {
     /// compilation requests this driver has caused so far
     pub requested: u64,
     pub rt: tokio::runtime::Runtime,
+    /// files with a dirty-flag lock file under ~/.forc/.lsp-locks (removed at shutdown: every new lock object
+    /// scans that directory and spawns one `ps` per file it finds)
+    dirty: Vec<PathBuf>,
 }
 pub enum Stuck {
     /// the harness gave up waiting (never a verdict)
@@ -218,7 +221,7 @@ impl CountedServer {
             }),
         );
         let rt = tokio::runtime::Builder::new_current_thread().enable_all().build().unwrap();
-        CountedServer { state, id, progress, requested: 0, rt }
+        CountedServer { state, id, progress, requested: 0, rt, dirty: vec![] }
     }
     /// Block until the worker has completed as many compilations as were requested.
     pub fn wait_idle(&self) -> Result<(), Stuck> {
@@ -273,13 +276,26 @@ impl CountedServer {
             content_changes: changes,
         };
         self.requested += 1;
+        if !self.dirty.iter().any(|p| p == file) {
+            self.dirty.push(file.to_path_buf());
+        }
         let st = self.state.clone();
         self.rt.block_on(async move { tower_lsp::LanguageServer::did_change(&*st, params).await });
         self.wait_idle()
     }
     pub fn shutdown(self) {
+        close_files(&self.state, &self.rt, &self.dirty);
         let _ = self.state.shutdown_server();
         unregister_server(self.id);
+    }
+}
+
+/// didClose for each file: removes its dirty-flag lock file
+pub fn close_files(state: &Arc<ServerState>, rt: &tokio::runtime::Runtime, files: &[PathBuf]) {
+    for f in files {
+        let st = state.clone();
+        let params = lsp_types::DidCloseTextDocumentParams { text_document: lsp_types::TextDocumentIdentifier { uri: Url::from_file_path(f).unwrap() } };
+        rt.block_on(async move { tower_lsp::LanguageServer::did_close(&*st, params).await });
     }
 }
 
